@@ -211,4 +211,10 @@ def run(ctx, report):
     from common import Only
     from rules import c01
     c01._own_run(ctx, Only(report, {"NOLAUNDER": "NOLAUNDER"}))
+    # "accept exactly the same inputs": what build() hands out must not depend on the key type's in-memory representation
+    from rules import c09
+    c09._own_run(ctx, Only(report, {"BUILD": "SIZE-BUILD"}))
+    # the outcome of a call is decided by its arguments: no static carries state from one call to the next
+    from rules.purity import hidden_state
+    hidden_state(ctx, report)
 
